@@ -366,7 +366,42 @@ class Interp:
     def s_Continue(self, st, node):
         raise ContinueSig()
 
+    def _try_merge_if(self, st, node) -> bool:
+        """`if COND: x = E` (no else) with a side-effect-free condition and a scalar local `x`: join the two
+        outcomes into x = If(COND, E, x) instead of forking the path.  Purely an optimisation (same semantics);
+        anything that would fork, raise or touch the heap falls back to the ordinary branch."""
+        if node.orelse or len(node.body) != 1:
+            return False
+        a = node.body[0]
+        if not (isinstance(a, ast.Assign) and len(a.targets) == 1 and isinstance(a.targets[0], ast.Name)):
+            return False
+        name = a.targets[0].id
+        old = st.env.get(name)
+        if not isinstance(old, (VBytes, VInt, VBool, VStr, VReal)):
+            return False
+        eng = self.eng
+        n_trail, n_pc, n_log, n_trace, n_vcs = len(eng.oracle.trail), len(st.pc), len(st.log), len(st.trace), len(eng.vcs)
+        heap0 = dict(st.heap)
+        try:
+            cond = B.pure_cond(self, st, node.test)
+            new = B.pure_eval(self, st, a.value)
+        except (Unsupported, PyRaise, Infeasible):
+            ok = False  # would fork / raise / be infeasible on one side: leave it to the ordinary branch
+        else:
+            ok = type(new) is type(old) and not isinstance(cond, bool)
+        clean = (len(eng.oracle.trail), len(st.pc), len(st.trace), len(eng.vcs)) == (n_trail, n_pc, n_trace, n_vcs) and all(st.heap.get(k) is v for k, v in heap0.items()) and len(st.heap) == len(heap0)
+        if not (ok and clean):
+            if not clean:
+                raise Unsupported(f"{self.site(node)}: conditional assignment with side effects during the merge attempt")
+            del st.log[n_log:]
+            return False
+        st.env[name] = type(old)(z3.If(eng.z_bool(cond), new.t, old.t))
+        st.log.append(f"if@{node.lineno}: merged into {name}")
+        return True
+
     def s_If(self, st, node):
+        if self.depth >= 0 and self._try_merge_if(st, node):
+            return
         c = self.eval_cond(st, node.test, label=f"if@{node.lineno}")
         if c:
             self.exec_stmts(st, node.body)
